@@ -13,9 +13,11 @@ git stash list | head -2
 # state: change applied + demo present
 eval "$demo" > /tmp/seed_$id.with.log 2>&1; rc_with=$?
 git diff --stat | tail -1
-git stash -q    # removes tracked source change; untracked demo stays
+# take the tracked source change out and put it back with a patch file (git stash is shared between worktrees)
+git diff -- . ':!seed' > /tmp/seed_$id.change.patch
+git apply -R /tmp/seed_$id.change.patch
 eval "$demo" > /tmp/seed_$id.without.log 2>&1; rc_without=$?
-git stash pop -q
+git apply /tmp/seed_$id.change.patch
 # existing tests with the change, demo moved aside
 demo_file=$(ls $pkg/zz_seeded_demo_test.go 2>/dev/null)
 [ -n "$demo_file" ] && mv "$demo_file" /tmp/seed_$id.demo.go
